@@ -4,6 +4,7 @@ import CTV.Lemmas.Tlv
 Round-trip lemmas for the TBSCertificate model: `parseTbs` and `marshalTbs` are inverse on canonical
 TBSCertificates; the list surgery of `removeExtension` / `BuildPrecertTBS`; preservation of `wf`.
 -/
+set_option linter.unusedSimpArgs false
 namespace CTV.Tbs
 
 /-! ### one extension -/
@@ -498,6 +499,72 @@ theorem removeOne_none_iff (oid : Bytes) (es : List Ext) : removeOne oid es = no
   have := removeOne_isSome_iff oid es
   cases hr : removeOne oid es <;> simp [hr] at this ⊢ <;> omega
 
+/-! ### the regenerated loop computes `removeOne` -/
+
+/-- relative index of the single extension with `oid` -/
+def idxOne (oid : Bytes) : List Ext → Option Nat
+  | [] => none
+  | e :: es =>
+    if e.oid = oid then (if hasOid oid es then none else some 0)
+    else (idxOne oid es).map (· + 1)
+
+theorem removeOne_eq_idx (oid : Bytes) (es : List Ext) :
+    removeOne oid es = (idxOne oid es).map (fun k => es.take k ++ es.drop (k + 1)) := by
+  induction es with
+  | nil => rfl
+  | cons e es ih =>
+    simp only [removeOne, idxOne]
+    split
+    · split <;> simp
+    · rw [ih]
+      cases idxOne oid es <;> simp
+
+theorem neg_one_eq : I64.neg (1 : Int) = -1 := by decide
+
+/-- once an index has been recorded, a further match is the "multiple extensions" error -/
+theorem findLoop_found (oid : Bytes) (es : List Ext) (i a : Int) (ha : a ≠ -1) :
+    findLoop oid es i a = if hasOid oid es then none else some a := by
+  induction es generalizing i with
+  | nil => simp [findLoop, hasOid]
+  | cons e es ih =>
+    simp only [findLoop, Gen.removeExtensionStep, neg_one_eq]
+    by_cases he : e.oid = oid
+    · simp [he, ha, hasOid]
+    · have hb : (e.oid == oid) = false := by simpa using he
+      simp only [hb, Bool.false_eq_true, if_false]
+      rw [ih]
+      simp [hasOid, hb]
+
+theorem findLoop_init (oid : Bytes) (es : List Ext) (i : Int) (hi : 0 ≤ i) :
+    findLoop oid es i (-1) =
+      match idxOne oid es with
+      | none => if hasOid oid es then none else some (-1)
+      | some k => some (i + k) := by
+  induction es generalizing i with
+  | nil => simp [findLoop, idxOne, hasOid]
+  | cons e es ih =>
+    simp only [findLoop, Gen.removeExtensionStep, neg_one_eq, idxOne]
+    by_cases he : e.oid = oid
+    · subst he
+      have hf := findLoop_found e.oid es (i + 1) i (by omega)
+      simp only [beq_self_eq_true, if_true, ne_eq, not_true_eq_false, decide_false, Bool.false_eq_true, if_false, hf]
+      cases hh : hasOid e.oid es <;> simp [hasOid, hh]
+    · have hb : (e.oid == oid) = false := by simpa using he
+      simp only [hb, Bool.false_eq_true, if_false, he]
+      rw [ih (i + 1) (by omega)]
+      cases hk : idxOne oid es with
+      | none => simp [hasOid, hb]
+      | some k => simp; omega
+
+theorem removeOneGo_eq (oid : Bytes) (es : List Ext) : removeOneGo oid es = removeOne oid es := by
+  rw [removeOne_eq_idx]
+  simp only [removeOneGo, findLoop_init oid es 0 (Int.le_refl 0), Gen.removeExtensionAbsent, neg_one_eq]
+  cases hk : idxOne oid es with
+  | none => cases hasOid oid es <;> simp
+  | some k =>
+    have : ¬ ((0 : Int) + (k : Int) = -1) := by omega
+    simp [this]
+
 /-! ### `wf` under a smaller extension list -/
 
 theorem encExts_append (a b : List Ext) : encExts (a ++ b) = encExts a ++ encExts b := by
@@ -598,7 +665,7 @@ theorem removeExt_insert (t : Tbs) (es : List Ext) (i : Nat) (x : Ext) (oid : By
   have hp := parseTbs_marshal _ hw
   unfold removeExt
   rw [hp]
-  simp [removeExtT, Tbs.withExts, hrm]
+  simp [removeExtT, removeOneGo_eq, Tbs.withExts, hrm]
 
 theorem setFirst_mid (oid v : Bytes) (A B : List Ext) (x : Ext) (hx : x.oid = oid) (hA : ∀ e ∈ A, e.oid ≠ oid) :
     setFirst oid v (A ++ x :: B) = A ++ { x with val := v } :: B := by
